@@ -126,6 +126,13 @@ def meta_annotations(spans, rng):
     return out
 
 
+def same_annotations(spans):
+    """Every annotation carries the SAME before and after string (one CSS class for all citations), and
+    both strings share characters with the plain alphabet ('k'): output that is post-processed with
+    character-set operations (strip/rstrip) or merged by comparing the strings shows here."""
+    return [((a, b), "«k", "k»") for a, b in spans]
+
+
 def strip_sentinels(s):
     return SENT.sub("", s)
 
